@@ -43,7 +43,7 @@ def single_return(prog, path):
     return b, rets[0].ret
 
 
-def closure_op(prog, clo, depth=0):
+def closure_op(prog, clo, depth=0, inline=None):
     """Set of (op, element type, operands are (accumulator, element)) over the returning paths of a fold closure;
     a closure that only forwards (acc, x) to another closure (captured, possibly a parameter substituted by the
     caller) is followed."""
@@ -55,7 +55,8 @@ def closure_op(prog, clo, depth=0):
         return {("?", clo[1], False)}
     caps = clo[2] if len(clo) > 2 else ()
     res = set()
-    for p in Walker(b, max_visits=2).paths():
+    # captures resolve to the enclosing function's terms (so `self.apply(acc, x)` with a known `self` is walked into)
+    for p in Walker(b, max_visits=2, inline=inline).paths(init_env={1: clo}):
         if p.end != "return":
             continue
         r = strip(p.ret)
@@ -64,7 +65,15 @@ def closure_op(prog, clo, depth=0):
         if r[0] == "binop":
             l, rr = strip(r[2]), strip(r[3])
             ok = l[0] == "param" and l[1] == 2 and rr[0] == "param" and rr[1] == 3
-            res.add((r[1].replace("WithOverflow", ""), b.locals[2]["s"], ok))
+            ety = b.locals[2]["s"]
+            # a generic wrapper closure that forwards to a concrete one (walked into): the concrete closure's type
+            for e in p.calls():
+                if e.get("modelled") and any(e["callee"].endswith(x) for x in FN_CALLS) and e["args"]:
+                    inner = strip(e["args"][0])
+                    ib = body_of(prog, inner[1]) if inner[0] == "closure" else None
+                    if ib is not None and len(ib.locals) > 2:
+                        ety = ib.locals[2]["s"]
+            res.add((r[1].replace("WithOverflow", ""), ety, ok))
             continue
         if r[0] == "call" and any(r[1].endswith(x) for x in FN_CALLS) and len(r[2]) == 2:
             f, args = strip(r[2][0]), strip(r[2][1])
@@ -74,7 +83,7 @@ def closure_op(prog, clo, depth=0):
             if inner is not None and inner[0] == "closure" and args[0] == "tuple" and len(args[1]) == 2:
                 a, c = strip(args[1][0]), strip(args[1][1])
                 fwd = a[0] == "param" and a[1] == 2 and c[0] == "param" and c[1] == 3
-                for op, ety, ok in closure_op(prog, inner, depth + 1):
+                for op, ety, ok in closure_op(prog, inner, depth + 1, inline=inline):
                     res.add((op, ety, ok and fwd))
                 continue
         res.add(("?", show(r)[:60], False))
